@@ -70,7 +70,15 @@ def build_harness():
     os.makedirs(BUILD, exist_ok=True)
     hdir = os.path.join(VERIF, "harness")
     shutil.copyfile(os.path.join(REPO, "go.sum"), os.path.join(hdir, "go.sum"))
-    rc, out = sh(["go", "build", "-tags", "verif", "-ldflags=-checklinkname=0", "-o", os.path.join(BUILD, "vh"), "."],
+    extra = []
+    if REPO != "/repo":
+        # a scratch tree (seeded-mutant testing): same module file with the replace redirected
+        mod = open(os.path.join(hdir, "go.mod")).read().replace("=> /repo", "=> " + REPO)
+        alt = os.path.join(BUILD, "alt.mod")
+        open(alt, "w").write(mod)
+        shutil.copyfile(os.path.join(REPO, "go.sum"), os.path.join(BUILD, "alt.sum"))
+        extra = ["-modfile", alt]
+    rc, out = sh(["go", "build"] + extra + ["-tags", "verif", "-ldflags=-checklinkname=0", "-o", os.path.join(BUILD, "vh"), "."],
                  cwd=hdir, env=GOENV, timeout=900)
     if rc != 0:
         raise Broken("harness build against the working tree failed", out[-3000:])
